@@ -65,6 +65,8 @@ PROPS["C02"] = {
             P("data/builder", "VerifEstimateDirSize"),
             P("data/builder", "VerifAutoShardThreshold", must_reach=("end", "plain", "sharded")),
             P("test", "VerifShardedDir", lg=3, entries=2, maxdepth=2),
+            P("test", "VerifShardedDir", must_reach=("end", "empty-directory"), lg=3, entries=0, maxdepth=2),
+            P("test", "VerifShardedDir", lg=3, entries=3, maxdepth=3, shareprefix=2, sharetargets=0),
             P("test", "VerifPlainDirMap", entries=2),
             P("test", "VerifHamtReaderWellFormed", must_reach=("end", "member", "non-member", "iterate", "enumerate-then-lookup", "lookup-then-enumerate", "empty-key")),
             P("test", "VerifHamtReaderWellFormed", must_reach=("end", "member", "non-member", "iterate", "enumerate-then-lookup", "lookup-then-enumerate", "empty-key"), lg=9, hi=1),
@@ -134,14 +136,19 @@ PROPS["C04"] = {
         "quick": [P("test", "VerifReadSeekHistory", must_reach=("end", "seek-negative", "read-at-or-past-end"), w=2, k=2, maxlen=5, steps=2),
                   P("test", "VerifReadSeekHistory", must_reach=("end", "read-at-or-past-end"), w=2, k=2, maxlen=5, steps=3, readers=2, maxbuf=2, readonly=1),
                   P("test", "VerifReadSeekHistory", must_reach=("end", "seek-negative", "read-at-or-past-end"), w=2, k=2, maxlen=5, steps=3, offrange=7, maxbuf=2),
-                  P("test", "VerifReadSeekHistory", must_reach=("end", "seek-negative", "read-at-or-past-end"), w=2, k=1, maxlen=3, steps=2, distinct=0)],
+                  P("test", "VerifReadSeekHistory", must_reach=("end", "seek-negative", "read-at-or-past-end"), w=2, k=1, maxlen=3, steps=2, distinct=0),
+                  P("test", "VerifReadSeekHistory", must_reach=("end", "seek-negative", "read-at-or-past-end"), w=2, k=1, maxlen=3, pattern=1221, offrange=4, maxbuf=2),
+                  P("test", "VerifReadSeekHistory", must_reach=("end", "seek-negative", "read-at-or-past-end"), w=2, k=1, maxlen=3, pattern=2112, offrange=4, maxbuf=2)],
         "thorough": [P("test", "VerifReadSeekHistory", must_reach=("end", "seek-negative", "read-at-or-past-end"), w=2, k=2, maxlen=6, steps=3),
                      P("test", "VerifReadSeekHistory", must_reach=("end", "seek-negative", "read-at-or-past-end"), w=2, k=2, maxlen=5, steps=3, readers=2, maxbuf=2),
                      P("test", "VerifReadSeekHistory", must_reach=("end", "seek-negative", "read-at-or-past-end"), w=2, k=1, maxlen=5, steps=2, maxbuf=4),
-                     P("test", "VerifReadSeekHistory", must_reach=("end", "seek-negative", "read-at-or-past-end"), w=2, k=1, maxlen=4, steps=3, offrange=7, maxbuf=2, distinct=0)],
+                     P("test", "VerifReadSeekHistory", must_reach=("end", "seek-negative", "read-at-or-past-end"), w=2, k=1, maxlen=4, steps=3, offrange=7, maxbuf=2, distinct=0),
+                     P("test", "VerifReadSeekHistory", must_reach=("end", "seek-negative", "read-at-or-past-end"), w=2, k=1, maxlen=4, pattern=12121, offrange=5, maxbuf=2),
+                     P("test", "VerifReadSeekHistory", must_reach=("end", "seek-negative", "read-at-or-past-end"), w=2, k=1, maxlen=4, pattern=21221, offrange=5, maxbuf=2),
+                     P("test", "VerifReadSeekHistory", must_reach=("end", "seek-negative", "read-at-or-past-end"), w=2, k=1, maxlen=4, pattern=12212, offrange=5, maxbuf=2)],
     },
-    "bounds": {"quick": "files of 0..5 bytes at width 2 / size-2 (single raw block, root+2, root+3 -> 2 interior levels); histories of 2 operations with symbolic int64 offsets |off|<=2^40, all three whence values, buffers 1..3; histories of 3 operations with |off|<=7; plus two readers of one node interleaved in every order over 3 reads; contents with freely repeated chunks (one block linked at several positions) up to 3 chunks, 2 operations",
-               "thorough": "histories of 3 operations; two readers with seeks; 3 interior levels"},
+    "bounds": {"quick": "files of 0..5 bytes at width 2 / size-2 (single raw block, root+2, root+3 -> 2 interior levels); histories of 2 operations with symbolic int64 offsets |off|<=2^40, all three whence values, buffers 1..3; histories of 3 operations with |off|<=7; plus two readers of one node interleaved in every order over 3 reads; contents with freely repeated chunks (one block linked at several positions) up to 3 chunks, 2 operations; histories of 4 operations of fixed kinds (Read Seek Seek Read, Seek Read Read Seek) with |off|<=4",
+               "thorough": "histories of 3 operations; two readers with seeks; 3 interior levels; 5-operation histories of three fixed kind patterns"},
     "assumptions": ["offsets beyond +-2^40 (int64 wrap-around) are outside the claim"],
     "outside": "histories longer than the bound; more than two readers",
 }
@@ -175,12 +182,14 @@ PROPS["C06"] = {
                   P("test", "VerifFileMissingBlock", w=2, k=1, maxlen=5),
                   P("test", "VerifFileFullReadOrder", must_reach=("end", "preload", "repeated-block"), w=2, k=1, maxlen=4, distinct=0),
                   P("test", "VerifFileMissingBlock", w=2, k=1, maxlen=4, distinct=0),
+                  P("test", "VerifHandBuiltReadOrder", must_reach=("end", "preload", "skewed-tsize", "two-levels", "identity-cid-leaf")),
                   P("test", "VerifHamtPreload", must_reach=("end", "missing")),
                   P("test", "VerifHamtPreload", must_reach=("end", "missing"), lg=9, hi=1), P("test", "VerifHamtPreload", must_reach=("end", "missing"), lg=10, hi=1),
                   P("test", "VerifPathTraversal", must_reach=("end", "present", "absent"))],
         "thorough": [P("test", "VerifFileFullReadOrder", must_reach=("end", "preload"), w=2, k=1, maxlen=12),
                      P("test", "VerifFileMissingBlock", w=2, k=1, maxlen=9),
                      P("test", "VerifFileMissingBlock", w=3, k=1, maxlen=10),
+                     P("test", "VerifHandBuiltReadOrder", must_reach=("end", "preload", "skewed-tsize", "two-levels", "identity-cid-leaf")),
                      P("test", "VerifHamtPreload", must_reach=("end", "missing")),
                   P("test", "VerifHamtPreload", must_reach=("end", "missing"), lg=9, hi=1), P("test", "VerifHamtPreload", must_reach=("end", "missing"), lg=10, hi=1),
                      P("test", "VerifPathTraversal", must_reach=("end", "present", "absent"))],
@@ -198,7 +207,9 @@ PROPS["C07"] = {
                   P("test", "VerifFileStructure", w=3, k=1, maxn=13, minn=1),
                   P("test", "VerifFileStructure", w=2, k=1, maxn=4, distinct=0),
                   P("test", "VerifFileStructure", w=3, k=1, maxn=4, distinct=0),
-                  P("test", "VerifFileStructure", must_reach=("end", "variable-chunks"), w=2, k=1, maxn=5, minn=1, varchunks=1)],
+                  P("test", "VerifFileStructure", must_reach=("end", "variable-chunks"), w=2, k=1, maxn=5, minn=1, varchunks=1),
+                  P("test", "VerifFileFragmentation", must_reach=("end", "eof-with-data"), w=2, k=2, maxlen=5),
+                  P("test", "VerifFileFragmentation", must_reach=("end", "default-chunker"), w=2, k=2, maxlen=4, chunker=1)],
         "thorough": [P("test", "VerifFileStructure", must_reach=("end", "empty"), w=2, k=1, maxn=33),
                      P("test", "VerifFileStructure", w=3, k=1, maxn=40, minn=1),
                      P("test", "VerifFileStructure", w=4, k=1, maxn=40, minn=1),
@@ -219,6 +230,7 @@ PROPS["C08"] = {
     "validate_tests": "TestRefHAMTAndBuilderMatchBoxo|TestBoxoHistoriesLeaveWellFormedReadableShards",
     "programs": {
         "quick": [P("test", "VerifShardedDir", lg=3, entries=2, maxdepth=2),
+                  P("test", "VerifShardedDir", lg=3, entries=3, maxdepth=3, shareprefix=2, sharetargets=0),
                   P("data/builder", "VerifBuilderSlice", must_reach=("end", "too-deep")),
                   P("hamt", "VerifHashBitsNext", must_reach=("end", "too-deep")),
                   P("data/builder", "VerifFormatLinkName"),
@@ -275,7 +287,8 @@ PROPS["C10"] = {
     "programs": {
         "quick": [P("test", "VerifShardedDirDeterminism", lg=3, entries=2, maxdepth=2),
                   P("test", "VerifPlainDirDeterminism", entries=3),
-                  P("test", "VerifFileFragmentation", w=2, k=2, maxlen=5),
+                  P("test", "VerifShardedDirDeterminism", lg=3, entries=3, maxdepth=3, shareprefix=2, sharetargets=0),
+                  P("test", "VerifFileFragmentation", must_reach=("end", "eof-with-data"), w=2, k=2, maxlen=5),
                   P("test", "VerifFileFragmentation", must_reach=("end", "default-chunker"), w=2, k=2, maxlen=4, chunker=1),
                   P("test", "VerifFileFragmentation", w=2, k=1, maxlen=4, distinct=0),
                   P("data/builder", "VerifEstimateDirSize"),
@@ -304,14 +317,15 @@ PROPS["C11"] = {
                   P("test", "VerifFileStructure", w=2, k=1, maxn=4, distinct=0),
                   P("test", "VerifShardedDir", lg=3, entries=2, maxdepth=2),
                   P("test", "VerifPlainDirMap", entries=2),
-                  P("test", "VerifDirSizes", must_reach=("end", "symlink", "plain"))],
-        "thorough": [P("test", "VerifPlainDirMap", entries=3), P("test", "VerifFileStructure", w=2, k=2, maxn=17), P("test", "VerifFileStructure", w=3, k=1, maxn=28),
+                  P("test", "VerifDirSizes", must_reach=("end", "symlink", "plain")),
+                  P("test", "VerifRecursiveImportSizes", must_reach=("end", "multi-chunk-file"), big=1)],
+        "thorough": [P("test", "VerifRecursiveImportSizes", must_reach=("end", "multi-chunk-file"), big=1), P("test", "VerifPlainDirMap", entries=3), P("test", "VerifFileStructure", w=2, k=2, maxn=17), P("test", "VerifFileStructure", w=3, k=1, maxn=28),
                      P("test", "VerifFileStructure", w=2, k=1, maxn=5, distinct=0),
                      P("test", "VerifShardedDir", lg=3, entries=3, maxdepth=2),
                      P("test", "VerifShardedDir", lg=3, entries=2, maxdepth=2, sizebits=40, small=1, fixedbuckets=1),
                      P("test", "VerifDirSizes", must_reach=("end", "symlink", "plain"))],
     },
-    "bounds": {"quick": "files: width 2 size-2 <=5 chunks (short last chunk), width 3 <=10 chunks, free chunk aliasing <=4 chunks (tree sum vs de-duplicated store): returned size, every Tsize, FileSize, BlockSizes recomputed from the stored blocks; sharded directories (2 entries, nested sub-shard) with symbolic entry sizes; plain directory and symlink sizes",
+    "bounds": {"quick": "files: width 2 size-2 <=5 chunks (short last chunk), width 3 <=10 chunks, free chunk aliasing <=4 chunks (tree sum vs de-duplicated store): returned size, every Tsize, FileSize, BlockSizes recomputed from the stored blocks; sharded directories (2 entries, nested sub-shard) with symbolic entry sizes; plain directory and symlink sizes; recursive import of a tree with a small file, a symlink, a nested directory and a 256 KiB + 1 byte file (two default-sized chunks): returned size and every Tsize == tree sum",
                "thorough": "files to 17 / 28 chunks; sizes up to 2^40"},
     "assumptions": [], "outside": "recursive imports beyond one level (size composition is the per-builder law checked here)",
 }
@@ -328,7 +342,7 @@ PROPS["C12"] = {
                      P("test", "VerifFileKthLoadFails", w=2, k=1, maxlen=9),
                      P("test", "VerifHamtMissingShards", must_reach=("end", "lookup-blocked", "iterate"))],
     },
-    "bounds": {"quick": "files 2..5 chunks (width 2): every single block missing (not-found or arbitrary I/O error) x buffers 1..2: exact prefix then non-EOF load error; the k-th load failing for symbolic k; both also over contents with repeated chunks (<= 4 chunks); hand-built HAMTs (4 shapes, up to 3 sub-shards over 3..4 levels): every subset of missing shards: lookups crossing one report the load error, iteration terminates, yields exactly the reachable entries once, one error per missing shard met",
+    "bounds": {"quick": "files 2..5 chunks (width 2): every single block missing (not-found, an arbitrary I/O error or io.ErrUnexpectedEOF) x buffers 1..2: exact prefix then non-EOF load error; the k-th load failing for symbolic k; both also over contents with repeated chunks (<= 4 chunks); hand-built HAMTs (4 shapes, up to 3 sub-shards over 3..4 levels): every subset of missing shards: lookups crossing one report the load error, iteration terminates, yields exactly the reachable entries once, one error per missing shard met",
                "thorough": "files to 9 / 12 chunks"},
     "assumptions": [], "outside": "",
 }
@@ -341,6 +355,7 @@ PROPS["C13"] = {
                   P("hamt", "VerifIsValueLink"),
                   P("test", "VerifHostileShard", must_reach=("end", "rejected", "iterated"), depth=1, links=1),
                   P("test", "VerifHostileFile", must_reach=("end", "rejected", "sought"), depth=0, maxbs=2, offrange=3, vals=1, slim=1),
+                  P("test", "VerifHostileDiamond"),
                   P("test", "VerifReadSeekHistory", must_reach=("end", "seek-negative"), w=2, k=2, maxlen=3, steps=2),
                   P("test", "VerifReifyTotal", must_reach=("end", "shard-invalid", "unknown-type"))],
         "thorough": [P("data", "VerifDecodersArbitraryBytes", len=4),
@@ -349,12 +364,13 @@ PROPS["C13"] = {
                      P("test", "VerifHostileShard", must_reach=("end", "rejected", "iterated"), depth=0, links=2),
                      P("test", "VerifHostileShard", must_reach=("end", "rejected", "iterated"), depth=1, links=1),
                      P("test", "VerifHostileShard", must_reach=("end", "rejected", "iterated"), depth=0, links=1, small=0),
+                     P("test", "VerifHostileDiamond", depth=16),
                      P("test", "VerifHostileFile", must_reach=("end", "rejected", "sought"), depth=0, maxbs=3, vals=1, slim=0),
                      P("test", "VerifHostileFile", must_reach=("end", "rejected", "sought"), depth=0, maxbs=3, offrange=3, vals=0, slim=0),
 
                      P("test", "VerifReifyTotal", must_reach=("end", "shard-invalid", "unknown-type"))],
     },
-    "bounds": {"quick": "decoders: ALL byte strings of length 3 (value xor error, no panic, step budget); hashBits.Next from any state with any width; hostile shard DAGs: root + 0..1 links, child shard with 0..1 links, fanouts {8,1024} chosen independently per shard, bitfields of 1..2 arbitrary bytes, names absent or 1..4 arbitrary bytes, children raw/shard/missing/non-UnixFS, lazy and preload, Length / 4 lookups / full iteration; hostile file DAGs: FileSize absent or ANY 64-bit value, 0..2 BlockSizes of ANY value (fewer or more than the links), two links with Tsize absent or ANY value of 3 magnitude classes, children raw / dag-pb leaf / missing, lazy and preload, AsBytes or Seek(|off|<=3, any whence)+2 reads; negative and overflowing seeks; reification of arbitrary type / shard parameters",
+    "bounds": {"quick": "decoders: ALL byte strings of length 3 (value xor error, no panic, step budget); hashBits.Next from any state with any width; hostile shard DAGs: root + 0..1 links, child shard with 0..1 links, fanouts {8,1024} chosen independently per shard, bitfields of 1..2 arbitrary bytes, names absent or 1..4 arbitrary bytes, children raw/shard/missing/non-UnixFS, lazy and preload, Length / 4 lookups / full iteration; hostile file DAGs: FileSize absent or ANY 64-bit value, 0..2 BlockSizes of ANY value (fewer or more than the links), two links with Tsize absent or ANY value of 3 magnitude classes, children raw / dag-pb leaf / missing, lazy and preload, AsBytes or Seek(|off|<=3, any whence)+2 reads; a chain of 12 shards each linking the next from two slots and ending empty (13 blocks, 2^12 paths through it): Length / preload / iteration within an instruction budget linear in the depth; negative and overflowing seeks; reification of arbitrary type / shard parameters",
                "thorough": "byte strings of length 4; 2 links per shard (one level) ; fanouts {8,16,256,1024}; hostile file DAGs with inline data, 1..2 links, 0..3 BlockSizes, |off|<=2^40; with plausible values and all count/kind combinations"},
     "assumptions": ["panics inside dependency decoders on bytes the harness never generates (dag-pb decode of arbitrary bytes) are not this library's code"],
     "outside": "blocks larger than the bound; hostile file nodes nested below hostile file nodes (2.7 million paths after an hour, not finished); two links per shard at two levels (3.2 million paths after 53 minutes, not finished); the wide value menu (4 fanouts, free Tsize, 0..2 bitfield bytes) at two levels (415 000 paths after 31 minutes, not finished)",
@@ -373,6 +389,7 @@ PROPS["C15"] = {
         "quick": [P("test", "VerifLinkMapContract", must_reach=("end", "absent-key", "present-key"), links=2),
                   P("test", "VerifHamtReaderWellFormed", must_reach=("end", "member", "non-member", "iterate", "enumerate-then-lookup", "lookup-then-enumerate", "empty-key")), P("test", "VerifHamtReaderWellFormed", must_reach=("end", "member", "non-member", "iterate", "enumerate-then-lookup", "lookup-then-enumerate", "empty-key"), lg=9, hi=1),
                   P("hamt", "VerifMatchKey"), P("hamt", "VerifIsValueLink"), P("hamt", "VerifTransformName"),
+                  P("hamt", "VerifReaderDeepChain", must_reach=("end", "too-deep", "deep-ok")),
                   P("test", "VerifShardedDir", lg=3, entries=2, maxdepth=2)],
         "thorough": [P("test", "VerifLinkMapContract", must_reach=("end", "absent-key", "present-key"), links=3),
                      P("test", "VerifHamtReaderWellFormed", must_reach=("end", "member", "non-member", "iterate", "enumerate-then-lookup", "lookup-then-enumerate", "empty-key")),
@@ -397,7 +414,7 @@ PROPS["C16"] = {
                      P("test", "VerifQuickBuilder", must_reach=("end",)),
                      P("test", "VerifRecursiveWriteFaults", must_reach=("end", "fault-delivered"))],
     },
-    "bounds": {"quick": "file builds 0..5 chunks (width 2), plain dir, sharded dir (2 entries, fanout 8, depth<=2), symlink, one-level recursive import over the model filesystem: no fault / the k-th write-open fails / the k-th commit fails for every k (symbolic): children committed before parents, error and nil link on fault, nothing committed after the fault, returned DAG fully committed; quick builder: commit order",
+    "bounds": {"quick": "file builds 0..5 chunks (width 2), plain dir, sharded dir (2 entries, fanout 8, depth<=2), symlink, one-level recursive import over the model filesystem: no fault / the k-th write-open fails / the k-th commit fails for every k (symbolic), the failure being an arbitrary error, io.EOF or io.ErrUnexpectedEOF: children committed before parents, error and nil link on fault, nothing committed after the fault, returned DAG fully committed; quick builder: commit order",
                "thorough": "files to 10 chunks at widths 2, 3; 3-entry shards; every map iteration order"},
     "assumptions": [], "outside": "",
 }
@@ -435,7 +452,7 @@ PROPS["C18"] = {
 PROPS["C19"] = {
     "programs": {"quick": [P("testutil", "VerifFixtureGenerators", must_reach=("end", "unixfs-directory", "custom-generator"), target=2048, freecoins=5, freenames=1),
                            P("testutil", "VerifFixtureGenerators", must_reach=("end", "unixfs-directory", "custom-generator"), target=2048, freecoins=0, freenames=3),
-                           P("testutil", "VerifFixtureFile"),
+                           P("testutil", "VerifFixtureFile", must_reach=("end", "short-source")),
                            P("testutil", "VerifFixtureWrap", must_reach=("end", "with-siblings", "empty-path"))]},
     "native_any_label": True,
     "bounds": {"quick": "UnixFSDirectory (default, sharded bit-width 3, custom child generator), GenerateDirectory (plain/sharded), UnixFSFile sizes 0..3, BuildDirectory; target size 2048; the first 5 dice and the first generated name are explorer-chosen (every value) — and, in a second program, the first 3 generated names (so repeated draws of one name arise) —, later draws are scripted (file, largest size, fresh name); WrapContent under paths of 0..3 segments (incl. '', '/', 'a//b'), exclusive or with generated siblings before/after at every level: names, links, contents at every level and the wanted content at the path"},
